@@ -1,5 +1,5 @@
 """Family P (generated parser runtime): shared pipeline for C01 C03 C05 C09 C16 C18."""
-import json, os, itertools, random
+import json, os, itertools, random, shutil
 from vlib import *
 from pcase import *
 
@@ -55,19 +55,30 @@ def write_inputs(sc, sub, tcases, truns):
     return sd
 
 
-def run_obs(sc, tcases, truns, timeout=1800, tag="obs"):
-    """Evaluate the definitional predicates with TLC. Returns (bad lines, TlcResult)."""
+def run_obs(sc, tcases, truns, timeout=1800, tag="obs", chunk=250000):
+    """Evaluate the definitional predicates with TLC (in chunks). Returns (bad lines with global run indices, TlcResult)."""
     if not truns:
         r = TlcResult(); r.ok = True
         return [], r
-    sd = write_inputs(sc, "spec-" + tag, tcases, truns)
-    r = tlc(sc, "ParserObs", cfg="ParserObs.cfg", cwd=sd, timeout=timeout)
-    tlc_must(r, "ParserObs")
-    if r.violation:
-        raise Infra("ParserObs: unexpected TLC-level violation: " + r.violation)
-    if r.distinct != 2 * len(truns):
-        raise Infra("ParserObs evaluated %d states for %d runs" % (r.distinct, len(truns)))
-    return [l for l in r.lines if l.get("ob") == "bad"], r
+    total = TlcResult(); total.ok = True
+    bad = []
+    for k in range(0, len(truns), chunk):
+        part = truns[k:k + chunk]
+        sd = write_inputs(sc, "spec-%s-%d" % (tag, k // chunk), tcases, part)
+        r = tlc(sc, "ParserObs", cfg="ParserObs.cfg", cwd=sd, timeout=timeout)
+        tlc_must(r, "ParserObs")
+        if r.violation:
+            raise Infra("ParserObs: unexpected TLC-level violation: " + r.violation)
+        if r.distinct != 2 * len(part):
+            raise Infra("ParserObs evaluated %d states for %d runs" % (r.distinct, len(part)))
+        for l in r.lines:
+            if l.get("ob") == "bad":
+                l["r"] += k
+                bad.append(l)
+        total.states += r.states
+        total.distinct += r.distinct
+        shutil.rmtree(sd, ignore_errors=True)
+    return bad, total
 
 
 def run_trace(sc, tcases, truns, timeout=1800, tag="trace"):
